@@ -466,3 +466,27 @@ func init() {
 		Replay: replayFn(c20Scenarios),
 	})
 }
+
+// c09RaceScenarios: closers racing the first CloseRead call, under the race
+// detector (state that CloseRead publishes for Close's wait must be published
+// under the lock Close reads it with).
+func c09RaceScenarios(tier string) []scenario {
+	var out []scenario
+	for _, k := range []connCfg{{Client: false}, {Client: true}} {
+		for _, second := range []string{"Close", "CloseNow"} {
+			sc := scenario{Name: fmt.Sprintf("race-closeread/Close+%s/%s", second, k.String()), Cfg: explore.Config{P: 0, T: 0, E: 0, Horizon: 120e9}, Setup: c20ConcSetup(k, second, false)}
+			if tier == "thorough" {
+				sc.Cfg.P = 1
+			}
+			out = append(out, raceWrap("C09", sc))
+		}
+	}
+	return out
+}
+
+func init() {
+	fw.Register(fw.Part{Prop: "C09R", Name: "s.race",
+		Units:  func(tier string) []fw.Unit { return scenarioUnits(c09RaceScenarios(tier)) },
+		Replay: replayFn(c09RaceScenarios),
+	})
+}
